@@ -9,7 +9,7 @@
    constructors) are outside this theorem: see the known findings. *)
 From Coq Require Import List Arith Bool.
 Import ListNotations.
-Require Import Names.
+Require Import Model Spec Rename Names.
 
 Theorem C20_user_names_never_temporaries : forall u base k, user_ok u = true -> u <> temp base k.
 Proof. exact user_never_temp. Qed.
@@ -34,3 +34,24 @@ Example C20_shipped_helper_names_collide :
   user_ok ([102;117;110;99;116;105;111;110;95] ++ digits 5) = true /\
   In (shipped_helper 5) (derived ([102;117;110;99;116;105;111;110;95] ++ digits 5)).
 Proof. exact shipped_helper_collision. Qed.
+
+(* the semantic half: renaming the bound names of a grammar (let variables, class fields, parameters, names mentioned
+   by inline Python and repetition counts, keyword arguments) by ANY injective map changes nothing but those names:
+   same matches, same end positions, same failures, the values equal up to the names closures carry *)
+Theorem C20_renaming_changes_only_names :
+  forall (r : nat -> nat), (forall x y, r x = r y -> x = y) ->
+  forall (g funs : list (list nat * expr)) (ignored : option nat) (t : list nat) (rx : nat -> nat -> option nat)
+         n e E p,
+    peg (rn_g r g) (rn_g r funs) ignored t rx n (rn_E r E) (rn_e r e) p = rn_r r (peg g funs ignored t rx n E e p).
+Proof. exact peg_rename. Qed.
+Print Assumptions C20_renaming_changes_only_names.
+
+(* not vacuous: a let, a data-dependent count and a class field, renamed by x -> x + 100 *)
+Example C20_renaming_witness :
+  let e := Let 1 false (Apply (Rx 0 false) (Py (PFn FInt)) false)
+             (Class 5 [(Some 2, true, Rep (Str [97] false) (BVar 1) (BVar 1)); (Some 3, true, Py (PVar 2))]) in
+  let t := [50; 97; 97; 98] in
+  let rx := fun (_ p : nat) => if Nat.eqb p 0 then Some 1 else None in
+  peg [] [] None t rx 9 [] e 0 = peg [] [] None t rx 9 [] (rn_e (fun x => x + 100) e) 0 /\
+  exists v, peg [] [] None t rx 9 [] e 0 = Match v 3.
+Proof. vm_compute. split; eauto. Qed.
